@@ -141,6 +141,15 @@ bool vp_combinators(int x, int* p, vp_S sv, char const* str)
 }
 
 
+// the RETURN handler of the world harnesses: the real return_handler_t<Sig, F>::call (trace_return) around a functor that
+// stands for the user's RETURN / THROW expression (declared only: the harness gives it its contract)
+struct vp_retfn { int operator()(trompeloeil::call_params_type_t<int(int)>& p) const; };
+int vp_reth(trompeloeil::trace_agent& agent, trompeloeil::call_params_type_t<int(int)>& params)
+{
+  trompeloeil::return_handler_t<int(int), vp_retfn> h{vp_retfn{}};
+  return h.call(agent, params);
+}
+
 // range matchers over a C array (C11, partial): elements are abstract operand matchers / plain values
 bool vp_ranges(int (&arr)[3], int (&arr0)[1])
 {
